@@ -14,7 +14,7 @@ import subprocess
 import sys
 import typing
 
-sys.path.insert(0, "/repo")
+sys.path.insert(0, __import__("os").environ.get("VERIF_REPO", "/repo"))
 # allocation noise before funsor is imported: shifts object addresses, hence type hashes (the tie-breaker of
 # multipledispatch's ordering) differ between the fresh processes of the determinism check
 _NOISE = [object() for _ in range(int(os.environ.get("MISC_C16_NOISE", "0")))]
